@@ -160,6 +160,8 @@ def math_spec():
 
 STATIC = ["compileTTF", "compileOTF", "compileOTF-cff2"]
 DSFN = ["compileVariableTTF", "compileVariableCFF2", "compileInterpolatableTTFsFromDS"]
+# static compile of the default master of a designspace (after the variable build has run on the same objects)
+DSFN_INFO = ["compileVariableTTF", "compileVariableCFF2", "compileTTF-master0"]
 
 INPUTS = {
     "rich": {"kind": "static", "specs": lambda perm=None: [rich_spec(0, perm)]},
@@ -169,6 +171,10 @@ INPUTS = {
     "prodnames": {"kind": "static", "specs": lambda perm=None: [_prodnames_spec(perm)], "opts": {"useProductionNames": True}},
     "math": {"kind": "static", "specs": lambda perm=None: [math_spec()]},
     "ds2": {"kind": "ds", "specs": lambda perm=None: [rich_spec(0, perm), rich_spec(1, perm)], "locs": [400, 700]},
+    "ds2+info": {"kind": "ds", "specs": lambda perm=None: [rich_spec(0, perm), rich_spec(1, perm)], "locs": [400, 700],
+                 "fns": DSFN_INFO,
+                 "dslib": {"public.fontInfo": {"familyName": "Override", "versionMajor": 7, "ascender": 950,
+                                               "openTypeOS2TypoAscender": 940, "italicAngle": -9}}},
     "ds3sparse": {"kind": "ds", "specs": lambda perm=None: [rich_spec(0, perm), rich_spec(1, perm)], "locs": [400, 700],
                   "sparse": 550},
 }
@@ -214,7 +220,7 @@ def build(input_name, variant):
             src.drawPoints(pen)
         sources.insert(1, {"font": f0, "layerName": "mid", "location": {"Weight": inp["sparse"]}, "name": "mid"})
     return B.build_designspace([{"name": "Weight", "tag": "wght", "min": 400, "default": 400, "max": 700}],
-                               sources, module=lib)
+                               sources, module=lib, lib=inp.get("dslib"))
 
 
 def call(fn, src, inplace, opts):
@@ -222,7 +228,9 @@ def call(fn, src, inplace, opts):
     buf = io.StringIO()
     kw = dict(opts)
     kw["inplace"] = inplace
-    if fn == "compileOTF-cff2":
+    if fn == "compileTTF-master0":
+        out = ufo2ft.compileTTF(src.sources[0].font, debugFeatureFile=buf, **kw)
+    elif fn == "compileOTF-cff2":
         out = ufo2ft.compileOTF(src, cffVersion=2, debugFeatureFile=buf, **kw)
     elif fn == "compileInterpolatableTTFsFromDS":
         ds = ufo2ft.compileInterpolatableTTFsFromDS(src, debugFeatureFile=buf, **kw)
